@@ -28,7 +28,9 @@ KeyType(alg) == IF alg \in {"ecdsaWithSHA1", "ecdsaWithSHA224", "ecdsaWithSHA256
 Rows == { r \in [signer : Signers, aki : AkiForms, ku : KeyUsages, alg : AlgSet, mut : Mutations] :
             \* key usage is a property of a CA certificate at hand; the other signers have fixed usages
             /\ (r.signer \in {"sibling", "unrelatedSameName", "unrelatedOtherName"} => r.ku = "absent")
-            /\ (r.signer = "endEntity" => r.ku = "noCrlSign") }
+            \* (the end-entity certificate may carry any key usage - none at all, or one that includes cRLSign: it is the ROLE that
+            \* rules it out, not the bits it was issued with)
+            /\ TRUE }
 
 (* ---- certificates at hand on the first-CDP-fetch path: the presented chain plus trusted signers ---- *)
 \* cert = [id, name, ski, serial, issuerName, key, keyType, ku, role]
@@ -36,7 +38,7 @@ Ctx(r) ==
   LET kt == KeyType(r.alg)
       kuOf(s) == IF r.signer = s THEN r.ku ELSE "crlSign"
       ee    == [id |-> "ee",    name |-> "leaf",  ski |-> "ski-ee",    serial |-> 7,  issuerName |-> IF r.signer = "intermediate" THEN "inter" ELSE "ca",
-                key |-> "k-ee", keyType |-> kt, ku |-> "noCrlSign", role |-> "ee"]
+                key |-> "k-ee", keyType |-> kt, ku |-> (IF r.signer = "endEntity" THEN r.ku ELSE "noCrlSign"), role |-> "ee"]
       ca    == [id |-> "ca",    name |-> "ca",    ski |-> "ski-ca",    serial |-> 1,  issuerName |-> "ca",   key |-> "k-ca",    keyType |-> kt, ku |-> kuOf("issuerCA"),     role |-> "ca"]
       inter == [id |-> "inter", name |-> "inter", ski |-> "ski-inter", serial |-> 2,  issuerName |-> "ca",   key |-> "k-inter", keyType |-> kt, ku |-> kuOf("intermediate"), role |-> "ca"]
       trust == [id |-> "trust", name |-> "trust", ski |-> "ski-trust", serial |-> 3,  issuerName |-> "trust", key |-> "k-trust", keyType |-> kt, ku |-> kuOf("trustedSigner"), role |-> "trusted"]
